@@ -3,6 +3,7 @@ from .common import *
 from .codec import *
 from vlib.callgraph import NONDET
 from vlib.transcript import rpo
+from vlib.mir import rv_locals
 
 META = dict(
     technique="static analysis: comparison-polarity, error-construction-rejects, entry-type symmetry of CBOR writer/reader pairs, bounded-allocation, error-discipline and effect-freedom rules over compiler MIR and the call graph",
@@ -147,6 +148,45 @@ def run(ck):
                 ck.ob("CALLEE", pth, "sign-discarded@bb%d" % bi, False,
                       "decoder applies %s to a decoded integer: the sign (e.g. of a decimal exponent) is dropped instead of being checked" % t["f"]["path"].split("::")[-1], g.loc(bi))
     ck.ob("CALLEE", "cbor decoders", "no-sign-discarding", True, "%d decoder functions scanned for abs/unsigned_abs/wrapping_neg on decoded integers" % nd, "", nontrivial=False)
+    # a text segment hands back only the complete UTF-8 characters of the chunk it was given and keeps the bytes of a split
+    # character for the next chunk: a caller that supplies the chunks itself must look at what was returned
+    npull = 0
+    for pth in sorted(cg.bodies):
+        for b in cg.bodies[pth]:
+            g = Fn(b)
+            for (bi, t) in g.calls(r"ciborium_ll::Segment::<.*>::pull$"):
+                nxt = t.get("target")
+                br = g.term(nxt) if nxt is not None else None
+                if not (br and br["k"] == "call" and callee_match(br, r"Try>::branch$|Try::branch$")):
+                    continue
+                if "Option<&str>" not in (br["f"].get("self") or ""):
+                    continue            # byte segments fill the whole chunk
+                npull += 1
+                payload = set()
+                for bj in g.reachable():
+                    for st in g.stmts(bj):
+                        rv = st.get("rv", {})
+                        if rv.get("k") == "use":
+                            pl = op_place(rv["a"])
+                            if pl and pl[0] == br["dest"][0] and any("Continue" in str(x) for x in pl[1:]):
+                                payload.add(st["lhs"][0])
+                fw = g.forward(payload) if payload else set()
+                used = False
+                for bj in g.reachable():
+                    tt = g.term(bj)
+                    if tt["k"] == "call" and any((op_place(a) or [None])[0] in fw for a in tt["args"]):
+                        used = True
+                    if tt["k"] == "switch" and (op_place(tt["d"]) or [None])[0] in fw:
+                        used = True
+                    for st in g.stmts(bj):
+                        rv = st.get("rv", {})
+                        if rv.get("k") in ("len", "discr", "bin") and any(l in fw for l in rv_locals(rv)):
+                            used = True
+                ck.ob("DEFUSE", pth, "text-chunk-result-used", used,
+                      "the parsed prefix returned by the text segment for a caller-supplied chunk is inspected (a character split at the chunk end is re-delivered with the next chunk)"
+                      if used else "the result of Segment<Text>::pull is dropped: the destination advances by the whole chunk although only the complete characters were parsed; "
+                      "the bytes of a character split at the chunk end are written twice", g.loc(bi))
+    ck.floor("DEFUSE", "text segment chunk pulls", npull, 1)
     ta = find_impl(ck, "rs", CB, r"token_amount::TokenAmount$", r"cbor::CborDeserialize$", "deserialize")
     if ta:
         neg = ta.calls(r"num::<impl i\d+>::checked_neg$")
